@@ -32,6 +32,9 @@ type Failure struct {
 	Test    string `json:"test"`
 	Message string `json:"message"`
 	Replay  string `json:"replay"`
+	// Explicit is true when the oracle reported the violation with Failf; false means the test failed
+	// in some other way (harness panic, rapid error) – the driver treats that as infrastructure trouble.
+	Explicit bool `json:"explicit"`
 }
 
 type fileFormat struct {
@@ -188,10 +191,11 @@ func (r *Run) Finish(t *testing.T) {
 		r.mu.Lock()
 		cur, msg := r.current, r.lastMsg
 		r.mu.Unlock()
+		explicit := msg != ""
 		if msg == "" {
 			msg = "test failed without an explicit verdict (panic or rapid error); see log"
 		}
-		f := Failure{Test: r.test, Message: msg}
+		f := Failure{Test: r.test, Message: msg, Explicit: explicit}
 		if dir := os.Getenv("VERIF_OUT"); dir != "" && cur != nil {
 			os.MkdirAll(dir, 0o755)
 			body, err := json.MarshalIndent(map[string]any{"property": r.prop, "test": r.test, "message": msg, "case": cur}, "", " ")
